@@ -20,6 +20,9 @@ pub enum Fault {
     PutFailsOnceNotRetriable { n: u64 },
     PutFailsAlways { n: u64 },
     GetFailsOnce { n: u64 },
+    /// every PUT of ONE object fails, for good (partition `part` of every database with s3_patition; the keys object (0) or
+    /// the values object (else) with s3), all other objects are stored normally
+    PutOfOneObjectFailsAlways { part: u8 },
 }
 
 #[derive(Clone, Debug, Serialize, Deserialize)]
@@ -53,6 +56,7 @@ pub fn case_strategy() -> impl Strategy<Value = Case> {
         1 => (1..6u64).prop_map(|n| Fault::PutFailsOnceNotRetriable { n }),
         1 => (1..6u64).prop_map(|n| Fault::PutFailsAlways { n }),
         1 => (1..8u64).prop_map(|n| Fault::GetFailsOnce { n }),
+        2 => (0..10u8).prop_map(|part| Fault::PutOfOneObjectFailsAlways { part }),
     ];
     (c06::case_strategy(16), fault).prop_map(|(base, fault)| Case { base, fault })
 }
@@ -62,11 +66,16 @@ pub fn run_case(ctx: &Ctx, case: &Case) -> Outcome {
     stub.reset();
     *stub.faults.lock().unwrap() = match case.fault {
         Fault::None => Faults::default(),
-        Fault::PutFailsOnce { n } => Faults { put_fail: Some((n, 1, 500)), get_fail: None },
-        Fault::PutFailsTimes { n, times } => Faults { put_fail: Some((n, times, 500)), get_fail: None },
-        Fault::PutFailsOnceNotRetriable { n } => Faults { put_fail: Some((n, 1, 409)), get_fail: None },
-        Fault::PutFailsAlways { n } => Faults { put_fail: Some((n, u64::MAX, 500)), get_fail: None },
-        Fault::GetFailsOnce { n } => Faults { put_fail: None, get_fail: Some(n) },
+        Fault::PutFailsOnce { n } => Faults { put_fail: Some((n, 1, 500)), get_fail: None, put_fail_suffix: None },
+        Fault::PutFailsTimes { n, times } => Faults { put_fail: Some((n, times, 500)), get_fail: None, put_fail_suffix: None },
+        Fault::PutFailsOnceNotRetriable { n } => Faults { put_fail: Some((n, 1, 409)), get_fail: None, put_fail_suffix: None },
+        Fault::PutFailsAlways { n } => Faults { put_fail: Some((n, u64::MAX, 500)), get_fail: None, put_fail_suffix: None },
+        Fault::GetFailsOnce { n } => Faults { put_fail: None, get_fail: Some(n), put_fail_suffix: None },
+        Fault::PutOfOneObjectFailsAlways { part } => {
+            let nparts: u8 = std::env::var("NUN_S3_NUMBER_OF_PARTITIONS").ok().and_then(|s| s.parse().ok()).unwrap_or(1);
+            let suffix = if strategy_name() == "s3" { if part == 0 { "nun.keys".to_string() } else { "nun.values".to_string() } } else { format!("/{}.nun", part % nparts.max(1)) };
+            Faults { put_fail: None, get_fail: None, put_fail_suffix: Some(suffix) }
+        }
     };
     let strat = strategy_name();
     let dir = ctx.fresh_dir();
@@ -112,11 +121,37 @@ pub fn run_case(ctx: &Ctx, case: &Case) -> Outcome {
         let logged = crate::errlog::errors() > errors_before;
         // a failure that is reported (panic, Err, error log) is what the property asks for when the fault persists
         let panicked = results.iter().any(|(w, _, _)| w == "snapshot-panic" || w == "shutdown-panic" || w == "boot-panic");
-        if let Fault::PutFailsAlways { .. } = case.fault {
+        if let Fault::PutFailsAlways { .. } | Fault::PutOfOneObjectFailsAlways { .. } = case.fault {
             if put_failed_now {
-                if panicked || logged {
+                if panicked {
                     reported = true;
                     break 'ops; // the state after a reported failure is not judged
+                }
+                if logged && strat != "s3" {
+                    // only an error line, the snapshot command itself went through: acceptable if nothing is dropped, i.e.
+                    // once the storage is healthy again the next snapshot brings everything there. Heal the stub, snapshot
+                    // every database again, restart, compare with what the databases held.
+                    reported = true;
+                    *stub.faults.lock().unwrap() = Faults::default();
+                    let mut later: Vec<(String, String, String)> = vec![];
+                    for db in 0..case.base.strategies.len() {
+                        for o in [Op::Snapshot { db, reclaim: false }, Op::Tick] {
+                            if let Some((sig, d)) = c06::step(&mut w, &o) {
+                                later.push((sig, String::new(), d));
+                            }
+                        }
+                    }
+                    if w.node.is_some() {
+                        later.extend(c06::restart(&mut w, false));
+                    }
+                    if let Some((what, _, d)) = later.into_iter().find(|(what, _, _)| !what.contains("resurrected-key") && !what.contains("wrong-id") && !what.contains("wrong-strategy")) {
+                        fail = Some((format!("C18|{}|failed-upload-only-logged-and-data-dropped", strat), format!("step {} {:?}: {} PUT(s) answered 500, the snapshot went through with an error line only; after the storage was healthy again, a further snapshot of every database and a restart: {} {}", i, op, stub.failed_puts.load(Ordering::SeqCst) - failed_puts_before, what, d)));
+                    }
+                    break 'ops;
+                }
+                if logged {
+                    reported = true;
+                    break 'ops;
                 }
                 fail = Some((format!("C18|{}|failed-upload-not-reported", strat), format!("step {} {:?}: {} PUT(s) answered 500 and the snapshot returned normally without an error log", i, op, stub.failed_puts.load(Ordering::SeqCst) - failed_puts_before)));
                 break 'ops;
@@ -188,6 +223,7 @@ pub fn run_case(ctx: &Ctx, case: &Case) -> Outcome {
         Fault::PutFailsOnceNotRetriable { .. } => "put-fails-once-with-409",
         Fault::PutFailsAlways { .. } => "put-fails-always",
         Fault::GetFailsOnce { .. } => "get-fails-once",
+        Fault::PutOfOneObjectFailsAlways { .. } => "one-object-unwritable",
     });
     if reported {
         out.classes.push("persistent-fault-was-reported");
